@@ -15,7 +15,16 @@ import (
 )
 
 var repoDir = "/repo"
-var specDir = "/verif/spec"
+var specDir = home() + "/spec"
+
+// home: where spec/, rac/ and KNOWN_FINDINGS.txt are read from (default /verif; GOVC_HOME points a long
+// regression run at a snapshot, so that the working copies can be edited meanwhile)
+func home() string {
+	if d := os.Getenv("GOVC_HOME"); d != "" {
+		return d
+	}
+	return "/verif"
+}
 
 func usage() {
 	fmt.Fprintln(os.Stderr, `usage:
